@@ -283,8 +283,8 @@ type RecordTypeInfo struct {
 var g_recInfoDic = dict.New[string, RecordTypeInfo]()
 
 func encodedKey[T0 any](name T0, targs []FType) string {
-	encts := frt.Pipe(slice.Map(FTypeToGo, targs), (func(_r0 []string) string { return strings.Concat("_", _r0) }))
-	return frt.SInterP("%s_%s", name, encts)
+	encts := frt.Pipe(slice.Map(FTypeToGo, targs), (func(_r0 []string) string { return strings.Concat(",", _r0) }))
+	return frt.SInterP("%s<%s>", name, encts)
 }
 
 func rtToKey(rt RecordType) string {
